@@ -119,6 +119,11 @@ class Ctx:
         self.bdir = os.path.join(BUILD, pid)
         shutil.rmtree(self.bdir, ignore_errors=True)
         os.makedirs(self.bdir, exist_ok=True)
+        rdir = os.path.join(VERIF, "replays")
+        if os.path.isdir(rdir):
+            for f in os.listdir(rdir):
+                if f.startswith(pid + "-"):
+                    os.remove(os.path.join(rdir, f))
         self.obligations = []      # names of theorems stated for this property
         self.discharged = []       # names that were accepted by coqc on this run
         self.assumptions_text = {}  # theorem -> Print Assumptions output
@@ -356,7 +361,8 @@ class Ctx:
         self.say("obligations %d discharged %d evaluations %d nontrivial %d violations %d wall %.1fs"
                  % (len(self.obligations), len(self.discharged), self.evaluations,
                     len(self.nontrivial), len(self.violations), wall))
-        shutil.rmtree(self.bdir, ignore_errors=True)
+        if not os.environ.get("VERIF_KEEP"):
+            shutil.rmtree(self.bdir, ignore_errors=True)
         return 1 if self.violations else 0
 
 
